@@ -46,10 +46,10 @@ def runEq (line : String) : String :=
     match ts.mapM tpl? with
     | some tpls =>
       if tpls.length < 2 then "bad-op" else
-      let rows := tpls.map fun a => String.ofList (tpls.map fun b => resChar (eqV0 a b))
+      let rows := tpls.map fun a => String.ofList (tpls.map fun b => resChar (Template.eq a b))
       let out := "/".intercalate rows
       let lit := tpls.all fun t => (asLiteral t).isSome
-      let anyEq := (tpls.zipIdx.any fun (a, i) => tpls.zipIdx.any fun (b, j) => i < j && eqV0 a b == .ok true)
+      let anyEq := (tpls.zipIdx.any fun (a, i) => tpls.zipIdx.any fun (b, j) => i < j && Template.eq a b == .ok true)
       let sig := if tpls.all List.isEmpty then "trivial" else s!"n={tpls.length},lit={lit},someeq={anyEq},p={out.contains 'p'}"
       s!"{out}\t{sig}"
     | none => "bad-op"
